@@ -181,6 +181,10 @@ var (
 		math.Float64bits(math.SmallestNonzeroFloat64), math.Float64bits(2147483648.5), math.Float64bits(4294967296),
 		0x7FF8000000000001, 0xFFF8000000000000, // NaNs (quiet)
 		0x7FF0000000000000, 0xFFF0000000000000, // ±Inf
+		// a hair away from a whole number, on either side: the conversion truncates, it does not round or snap
+		math.Float64bits(3 - 1e-10), math.Float64bits(-3 + 1e-10), math.Float64bits(5 + 1e-10), math.Float64bits(1e-10), math.Float64bits(-1e-10),
+		math.Float64bits(math.Nextafter(1, 0)), math.Float64bits(math.Nextafter(-1, 0)), math.Float64bits(math.Nextafter(1000000, 0)),
+		math.Float64bits(0.49999999999999994), math.Float64bits(0.5), math.Float64bits(-0.5), math.Float64bits(2.5), math.Float64bits(1e15 + 0.5),
 	}
 	f32Patterns = []uint32{
 		0, 0x80000000, math.Float32bits(1), math.Float32bits(-1), math.Float32bits(1.5), math.Float32bits(-2.75),
@@ -189,6 +193,8 @@ var (
 		math.Float32bits(9223372036854775808), math.Float32bits(-9223372036854775808),
 		math.Float32bits(math.MaxFloat32), math.Float32bits(math.SmallestNonzeroFloat32),
 		0x7FC00000, 0xFFC00000, 0x7F800000, 0xFF800000,
+		math.Float32bits(math.Nextafter32(3, 0)), math.Float32bits(math.Nextafter32(-3, 0)), math.Float32bits(math.Nextafter32(1, 0)),
+		math.Float32bits(0.5), math.Float32bits(-0.5), math.Float32bits(1e-10),
 	}
 )
 
